@@ -5,6 +5,22 @@ ROOT = os.path.dirname(os.path.abspath(__file__))
 
 # id -> dict(text, note, technique, design_ref, engine)
 CLAIMED = {
+ "C08": dict(
+    text="Lean 4 theorem C08_full_holds: for every sequence of cds_lfht operations (add, add_unique, add_replace, replace, del, lookup, "
+         "next_duplicate, first/next, count_nodes, resize, destroy) on any hashes/keys and every accepted (init,min,max,flags,allocator) "
+         "tuple, the model written as the C loops (mask lookup, walks from the bucket node, insertion position among equal reverse "
+         "hashes, duplicate scan, flag+gc removal, level-wise grow/shrink, parameter normalisation of _cds_lfht_new_with_alloc) "
+         "refines a reference multimap keyed by (hash,key): seq_refines_multimap (one-step simulation through an abstraction function, "
+         "all 11 ops), seq_no_stuck (non-vacuity: enabled on every contract-respecting call), traversal_exactly_once, count_nodes_exact, "
+         "destroy_iff_empty, resize_preserves_contents, lookup_finds_iff_present, new_normalises; bitrev_table_correct (decide +kernel "
+         "over the table regenerated from the source each run), bitrev64_involutive/injective, bitrev split-order lemmas, "
+         "count_order_spec/fls_spec. Tie: the real rculfhash.c + allocators on generated op sequences with adversarial hashes and all "
+         "configuration tuples; every result, duplicate chain, exact traversal order, count and normalised parameter replayed on the "
+         "model; independent C multimap oracle; ASan/UBSan build in thorough.",
+    note="Trusted: Lean kernel; one thread (every cmpxchg succeeds); fls via bsr modelled as log2+1 (checked differentially); allocation "
+         "never fails; allocator index arithmetic and the resize loop are C09's; AUTO_RESIZE bucket count treated as unobservable.",
+    technique="Lean 4 refinement proof (simulation to a reference multimap by induction over operation sequences) + kernel-checked table; differential replay of the real source",
+    design_ref="§4 C08", engine="lfht"),
  "C19": dict(
     text="Lean 4 theorems: handler_balanced / read_ongoing_unchanged / interrupted_lock_same_as_plain on a thread-local model in which a "
          "handler (any tree of sections, nested interruptions to any depth) may run between the plain read of the reader word and the "
